@@ -73,7 +73,8 @@ class SJob(AbstractJob):
     """scripted atomic job"""
 
     def __init__(self, name, trace, duration=1.0, outcome='ret', cancel_delay=0.0,
-                 shutdown_duration=0.0, **kw):
+                 shutdown_duration=0.0, yields=0, **kw):
+        self.yields = yields                # extra event-loop iterations before the body ends
         self.name = name
         self.trace = trace
         self.duration = duration            # None: never ends
@@ -101,6 +102,8 @@ class SJob(AbstractJob):
                 await asyncio.sleep(10 ** 9)
             else:
                 await asyncio.sleep(self.duration)
+                for _ in range(self.yields):
+                    await asyncio.sleep(0)
         except asyncio.CancelledError:
             self.trace.log('cancelled', self.name)
             if self.cancel_delay:
@@ -203,7 +206,7 @@ def build(spec, loop=None):
         if sp['type'] == 'job':
             o = SJob(name, b.trace, duration=sp.get('duration', 1.0), outcome=sp.get('outcome', 'ret'),
                      cancel_delay=sp.get('cancel_delay', 0.0),
-                     shutdown_duration=sp.get('shutdown_duration', 0.0),
+                     shutdown_duration=sp.get('shutdown_duration', 0.0), yields=sp.get('yields', 0),
                      critical=sp.get('critical', False), forever=sp.get('forever', False))
         else:
             mem = [mk(m, name) for m in sp.get('members', [])]
